@@ -5,5 +5,6 @@ CONSTANTS
   ForwardHalfClose = TRUE
   JoinBeforeError = FALSE
   NeedFirstMessage = TRUE
+  FirstSendEOFFatal = FALSE
 INVARIANTS TranscriptEquivalence BackendSawPrefix BackendSawAll NoPumpOutlivesHandler
 PROPERTY Finishes
